@@ -16,6 +16,7 @@ from __future__ import annotations
 
 import builtins
 import csv
+import json
 import os
 import threading
 from pathlib import Path
@@ -1371,4 +1372,191 @@ def restart_smoke_problems(lines, seq, rep):
         probs.append(f"subjects with more than one row: {dup}")
     if sorted(map(tuple, lines[1:])) != sorted(map(tuple, seq[1:])):
         probs.append("rows differ from an uninterrupted run")
+    return probs
+
+
+# ------------------------------------------------------------------ histories of live sessions on one output file (sequential)
+SESSION_HISTORIES = r"""
+import os, sys, io, contextlib, json, csv, tempfile, shutil
+os.environ["PANOPTICA_CITATION_REMINDER"] = "false"
+sys.path.insert(0, sys.argv[1])
+from panoptica.panoptica_aggregator import Panoptica_Aggregator
+
+
+class Interrupted(BaseException):
+    pass
+
+
+class Res:
+    def __init__(self, v):
+        self.v = v
+        self.computation_time = None
+
+    def to_dict(self):
+        return {"m": self.v}
+
+
+class Ev:
+    segmentation_class_groups_names = ["g"]
+    resulting_metric_keys = ["m"]
+    die = False
+
+    def evaluate(self, pred, ref, **k):
+        if Ev.die:
+            raise Interrupted()
+        return {"g": (Res(int(pred)), None)}
+
+
+def rows(path):
+    if not os.path.exists(path):
+        return None
+    with open(path, "r", encoding="utf8", newline="") as f:
+        return [r for r in csv.reader(f, delimiter="\t", lineterminator="\n")]
+
+
+def submit(agg, subjects, name, dies=False):
+    Ev.die = dies
+    try:
+        agg.evaluate(subjects.index(name) + 1, 0, name)
+    except Interrupted:
+        pass
+    finally:
+        Ev.die = False
+
+
+def run_case(case, d):
+    subjects, ops = case["subjects"], case["ops"]
+    out, sib = os.path.join(d, case["file"]), os.path.join(d, case["sibling"])
+    buf = os.path.join(d, "panoptica_aggregator_tmp_" + case["file"])
+    sessions = [Panoptica_Aggregator(Ev(), out)]
+    neighbour = Panoptica_Aggregator(Ev(), sib)
+    trace = []
+    for k, step in enumerate(ops):
+        if step[0] == "new":
+            sessions.append(Panoptica_Aggregator(Ev(), out))
+        else:
+            submit(sessions[step[1]], subjects, step[2], dies=step[0] == "die")
+        trace.append([rows(out), rows(buf)])
+        if k < len(subjects):
+            submit(neighbour, subjects, subjects[k])                    # the neighbour works on its own file in between
+    for name in subjects[len(ops):]:
+        submit(neighbour, subjects, name)
+    return {"out": rows(out), "sib": rows(sib), "trace": trace}
+
+
+cases = json.loads(open(sys.argv[2]).read())
+res = []
+for case in cases:
+    d = tempfile.mkdtemp(dir=os.path.dirname(sys.argv[2]))
+    try:
+        with contextlib.redirect_stdout(io.StringIO()):
+            res.append(run_case(case, d))
+    except BaseException as e:
+        res.append({"error": type(e).__name__ + ": " + str(e)[:200]})
+    shutil.rmtree(d, ignore_errors=True)
+open(sys.argv[3], "w").write(json.dumps(res))
+"""
+
+NAME_POOLS = [["s1", "s2", "s3", "s4", "s5"], ["aa", "bb", "cc", "dd"], ['q"1', "t\tb", "s 1", "w1 "], ["a", "bb", "ccc", "dddd"],
+              ["x1", "x2", "y1"], ["subject_name", "s1", "s2"]]
+
+
+def history_case(rng):
+    """a sequential history over several LIVE sessions of one output file: ["new"] creates another aggregator on the file (the older
+    ones stay in use), ["ok", i, name] / ["die", i, name] submit a subject through session i (die: the evaluation is interrupted
+    after the claim); afterwards a fresh session and every old one resubmit everything"""
+    pool = list(rng.choice(NAME_POOLS))
+    h, n_sessions = [], 1
+    for _ in range(rng.randint(3, 9)):
+        c = rng.random()
+        if c < 0.22:
+            h.append(["new"])
+            n_sessions += 1
+        else:
+            h.append(["die" if c < 0.45 else "ok", rng.randrange(n_sessions), rng.choice(pool)])
+    f, sib = rng.choice([("a.tsv", "b.tsv"), ("run.fold0.tsv", "run.fold1.tsv"), ("exp.tsv", "exp.v1.tsv")])
+    return {"history_case": True, "subjects": pool, "history": h, "file": f, "sibling": sib}
+
+
+def history_ops(case):
+    """the whole operation list of a case: the history, then a fresh session resubmitting every subject, then every older session
+    doing the same (nothing may be added any more)"""
+    h = [list(st) for st in case["history"]]
+    n_sessions = 1 + sum(1 for st in h if st[0] == "new")
+    ops = h + [["new"]] + [["ok", n_sessions, n] for n in case["subjects"]]
+    for i in range(n_sessions):
+        ops += [["ok", i, n] for n in case["subjects"]]
+    return ops
+
+
+def history_model_input(case):
+    """engine input of op 1704: no rows at the start; operations without the session index (sessions carry no state)"""
+    ops = []
+    for st in history_ops(case):
+        if st[0] == "new":
+            ops.append([0])
+        elif st[0] == "ok":
+            ops.append([1, enc_name(st[2]), case["subjects"].index(st[2]) + 1])
+        else:
+            ops.append([2, enc_name(st[2])])
+    return [[], ops]
+
+
+def history_trace_differs(case, res, model_out):
+    """first step at which the files of the implementation are not the model's state, or None"""
+    if "error" in res:
+        return None
+    ops = history_ops(case)
+    for k, (impl, mod) in enumerate(zip(res.get("trace", []), model_out)):
+        rows_i, buf_i = impl
+        got_out = None if not rows_i else [[enc_name(r[0]), int(r[1]) if len(r) == 2 and r[1].lstrip("-").isdigit() else r[1:]] for r in rows_i[1:]]
+        got_buf = None if buf_i is None else [enc_name(r[0] if r else "") for r in buf_i]
+        if got_out != mod[0] or got_buf != mod[1]:
+            return {"step": k, "op": ops[k], "implementation": {"out": rows_i, "buf": buf_i}, "model": mod}
+    if len(res.get("trace", [])) != len(model_out):
+        return {"step": min(len(res.get("trace", [])), len(model_out)), "op": "trace length", "implementation": len(res.get("trace", [])), "model": len(model_out)}
+    return None
+
+
+def history_run(cases):
+    import shutil
+    import subprocess
+    import sys
+    import tempfile
+    d = tempfile.mkdtemp(dir=str(common.WORK))
+    script = Path(d) / "histories.py"
+    script.write_text(SESSION_HISTORIES)
+    (Path(d) / "cases.json").write_text(json.dumps([dict(c, ops=history_ops(c)) for c in cases]))
+    try:
+        p = subprocess.run([sys.executable, str(script), str(common.REPO), str(Path(d) / "cases.json"), str(Path(d) / "res.json")],
+                           capture_output=True, text=True, timeout=900, env=dict(os.environ, PYTHONHASHSEED="0"))
+        res = json.loads((Path(d) / "res.json").read_text())
+    except Exception as e:  # noqa
+        res = [{"error": "the history runner did not finish: " + type(e).__name__}] * len(cases)
+    shutil.rmtree(d, ignore_errors=True)
+    return res
+
+
+def history_problems(case, res):
+    """the property's outcome: header once, exactly one complete row per subject with the values of an uninterrupted run; sibling too"""
+    if "error" in res:
+        return ["a session history raised " + res["error"]]
+    probs = []
+    want = {name: [name, str(i + 1)] for i, name in enumerate(case["subjects"])}
+    for key, what in (("out", "output file"), ("sib", "sibling output file")):
+        lines = res.get(key)
+        if not lines:
+            probs.append(f"{what} absent or empty")
+            continue
+        if lines[0] != ["subject_name", "g-m"] or sum(1 for r in lines if r == lines[0]) != 1 and "subject_name" not in case["subjects"]:
+            probs.append(f"{what}: header {lines[0]} / repeated")
+        names = [r[0] for r in lines[1:]]
+        for name in case["subjects"]:
+            if names.count(name) != 1:
+                probs.append(f"{what}: subject {name!r} has {names.count(name)} rows")
+        for r in lines[1:]:
+            if r[0] in want and r != want[r[0]]:
+                probs.append(f"{what}: row {r} differs from the uninterrupted run's {want[r[0]]}")
+            if r[0] not in want:
+                probs.append(f"{what}: unexpected row {r}")
     return probs
